@@ -346,6 +346,7 @@ macro_rules! emit_table {
         $s.call(key.sub(S_ITER, 0));
         let cap = $datalen + 2;
         let mut cnt = 0usize;
+        let hint = t.iter().size_hint();
         for $item in t.iter() {
             cnt += 1;
             if cnt > cap {
@@ -354,6 +355,9 @@ macro_rules! emit_table {
             }
             let $sink = &mut *$s;
             $emit;
+        }
+        if cnt <= cap {
+            hint_ok(hint, cnt, "ParsingIterator");
         }
         $s.u(cnt as u64);
         $s.done(true);
@@ -449,17 +453,31 @@ pub fn emit_note<S: Sink>(s: &mut S, n: &Note<'_>) {
     }
 }
 
+/// Iterator contract: `size_hint()` brackets the number of items really yielded. A wrong hint makes
+/// `collect()` and friends panic or over-allocate inside std; it is reported as the crate's panic.
+pub fn hint_ok(hint: (usize, Option<usize>), yielded: usize, what: &str) {
+    if hint.0 > yielded || hint.1.map(|h| h < yielded).unwrap_or(false) {
+        panic!("size_hint contract broken by {what}: hint {:?} but {} items are yielded", hint, yielded);
+    }
+}
+
 pub fn emit_notes<S: Sink, E: EndianParse>(s: &mut S, key: Key, it: NoteIterator<'_, E>, datalen: usize) {
     s.call(key.sub(S_NOTES, 0));
     let cap = datalen + 2;
     let mut cnt = 0usize;
+    let hint = it.size_hint();
+    let mut ran = false;
     for n in it {
         cnt += 1;
         if cnt > cap {
             s.runaway(key.sub(S_NOTES, 0));
+            ran = true;
             break;
         }
         emit_note(s, &n);
+    }
+    if !ran {
+        hint_ok(hint, cnt, "NoteIterator");
     }
     s.u(cnt as u64);
     s.done(true);
@@ -469,6 +487,7 @@ pub fn emit_rels<S: Sink, E: EndianParse>(s: &mut S, key: Key, it: RelIterator<'
     s.call(key.sub(S_RELS, 0));
     let cap = datalen + 2;
     let mut cnt = 0usize;
+    let hint = it.size_hint();
     for r in it {
         cnt += 1;
         if cnt > cap {
@@ -479,6 +498,9 @@ pub fn emit_rels<S: Sink, E: EndianParse>(s: &mut S, key: Key, it: RelIterator<'
         s.u(r.r_sym as u64);
         s.u(r.r_type as u64);
     }
+    if cnt <= cap {
+        hint_ok(hint, cnt, "RelIterator");
+    }
     s.u(cnt as u64);
     s.done(true);
 }
@@ -487,6 +509,7 @@ pub fn emit_relas<S: Sink, E: EndianParse>(s: &mut S, key: Key, it: RelaIterator
     s.call(key.sub(S_RELAS, 0));
     let cap = datalen + 2;
     let mut cnt = 0usize;
+    let hint = it.size_hint();
     for r in it {
         cnt += 1;
         if cnt > cap {
@@ -497,6 +520,9 @@ pub fn emit_relas<S: Sink, E: EndianParse>(s: &mut S, key: Key, it: RelaIterator
         s.u(r.r_sym as u64);
         s.u(r.r_type as u64);
         s.u(r.r_addend as u64);
+    }
+    if cnt <= cap {
+        hint_ok(hint, cnt, "RelaIterator");
     }
     s.u(cnt as u64);
     s.done(true);
@@ -534,6 +560,7 @@ pub fn emit_symver<S: Sink, E: EndianParse>(s: &mut S, key: Key, t: &SymbolVersi
                 s.u(d.hidden as u64);
                 let cap = datalen + 2;
                 let mut cnt = 0usize;
+                let hint = d.names.size_hint();
                 for nm in d.names {
                     cnt += 1;
                     if cnt > cap {
@@ -547,6 +574,9 @@ pub fn emit_symver<S: Sink, E: EndianParse>(s: &mut S, key: Key, t: &SymbolVersi
                         }
                         Err(_) => s.u(0),
                     }
+                }
+                if cnt <= cap {
+                    hint_ok(hint, cnt, "SymbolNamesIterator");
                 }
                 s.u(cnt as u64);
                 s.done(true)
